@@ -324,6 +324,16 @@ class HeaderPacketReceiver(Elaboratable):
         last_enable = Signal()
         m.d.ss     += last_enable.eq(self.enable)
 
+        # A disable or reset can arrive while we're busy sending a link command; remember it
+        # until we're back in our dispatch state, where we prepare for the next advertisement.
+        link_went_down  = (last_enable & ~self.enable) | self.usb_reset
+        restart_pending = Signal()
+        reset_pending   = Signal()
+        with m.If(link_went_down):
+            m.d.ss += restart_pending.eq(1)
+        with m.If(self.usb_reset):
+            m.d.ss += reset_pending.eq(1)
+
         #
         # Header Packet Buffers
         #
@@ -465,7 +475,7 @@ class HeaderPacketReceiver(Elaboratable):
             # and then move to the state in which we'll send them.
             with m.State("DISPATCH_COMMAND"):
 
-                with m.If(self.enable):
+                with m.If(self.enable & ~link_went_down & ~restart_pending):
                     # NOTE: the order below is important; changing it can easily break things:
                     # - ACKS must come before credits, as we must send an LGOOD before we send our initial credits.
                     # - LBAD must come after ACKs and credit management, as all scheduled ACKs need to be
@@ -498,8 +508,10 @@ class HeaderPacketReceiver(Elaboratable):
 
                 # Once we've become disabled, we'll want to prepare for our next enable.
                 # This means preparing for our advertisement, by:
-                with m.If((last_enable & ~self.enable) | self.usb_reset):
+                with m.If(link_went_down | restart_pending):
                     m.d.ss += [
+                        restart_pending       .eq(0),
+
                         # -Resetting our pending ACKs to 1, so we perform an sequence number advertisement
                         #  when we're next enabled.
                         acks_to_send          .eq(1),
@@ -507,7 +519,7 @@ class HeaderPacketReceiver(Elaboratable):
                         # -Decreasing our next sequence number; so we maintain a continuity of sequence numbers
                         #  without counting the advertising one. This doesn't seem to be be strictly necessary
                         #  per the spec; but seem to make analyzers happier, so we'll go with it.
-                        next_header_to_ack    .eq(next_header_to_ack - 1),
+                        next_header_to_ack    .eq(expected_sequence_number - 1),
 
                         # - Clearing all of our buffers.
                         read_pointer          .eq(0),
@@ -526,8 +538,9 @@ class HeaderPacketReceiver(Elaboratable):
                     ]
 
                     # If this is a USB Reset, also reset our sequences.
-                    with m.If(self.usb_reset):
+                    with m.If(self.usb_reset | reset_pending):
                         m.d.ss += [
+                            reset_pending             .eq(0),
                             expected_sequence_number  .eq(0),
                             next_header_to_ack        .eq(-1)
                         ]
@@ -552,7 +565,7 @@ class HeaderPacketReceiver(Elaboratable):
                     m.d.ss   += next_header_to_ack  .eq(next_header_to_ack + 1)
 
                     # If this was the last ACK we had to send, move back to our dispatch state.
-                    with m.If(acks_to_send == 1):
+                    with m.If((acks_to_send == 1) | link_went_down | restart_pending):
                         m.next = "DISPATCH_COMMAND"
 
 
@@ -574,7 +587,7 @@ class HeaderPacketReceiver(Elaboratable):
                     m.d.ss   += next_credit_to_issue  .eq(next_credit_to_issue + 1)
 
                     # If this was the last credit we had to issue, move back to our dispatch state.
-                    with m.If(credits_to_issue == 1):
+                    with m.If((credits_to_issue == 1) | link_went_down | restart_pending):
                         m.next = "DISPATCH_COMMAND"
 
 
@@ -636,5 +649,17 @@ class HeaderPacketReceiver(Elaboratable):
                 with m.If(lc_generator.done):
                     m.d.ss += lxu_pending.eq(0)
                     m.next = "DISPATCH_COMMAND"
+
+        # The receive side becomes fresh immediately, whatever link command we're in the middle of sending.
+        with m.If(link_went_down):
+            m.d.ss += [
+                read_pointer          .eq(0),
+                write_pointer         .eq(0),
+                buffers_filled        .eq(0),
+                lbad_pending          .eq(0),
+                ignore_packets        .eq(0),
+            ]
+            with m.If(self.usb_reset):
+                m.d.ss += expected_sequence_number.eq(0)
 
         return m
